@@ -513,6 +513,100 @@ def rule_reset(ctx, py):
     ctx.floor(R, 1)
 
 
+def rule_progress(ctx, tu, eff):
+    """every path through an Iterate that does not return on `complete` either flags completion or advances the
+    clock by `t += dt` (a step that does neither can be repeated forever: the driver loops never return)"""
+    R = "C10.PROGRESS"
+    for c in tu.classes.values():
+        m = c.methods.get("Iterate")
+        if m is None or m.body is None:
+            continue
+
+        def gen(node, m=m, c=c):
+            out = []
+            for x in walk(node):
+                cp = call_parts(x) if x.get("kind") == "CXXMemberCallExpr" else None
+                if cp and cp[0] == "FlagAsComplete":
+                    out.append((("done",), True))
+                for s_ in cxa.stores_of_node(x):
+                    if s_.base == ("field", "t") and s_.op == "+=" and uname(strip(s_.rhs, casts=True)) == "dt":
+                        out.append((("advanced",), True))
+            return out
+
+        class C(cxa.CanonFacts):
+            def ret(self, s_, cfg):
+                early = ("complete", True) in cfg
+                okk = early or (("done",), True) in cfg or (("advanced",), True) in cfg
+                ctx.check(okk, R, s_.src, m.qual, text(s_.src) + (" [complete]" if early else ""),
+                          "the step ended the simulation or advanced the clock by dt",
+                          "a path through Iterate neither flags completion nor advances the clock by `t += dt`: when no "
+                          "event can happen the engine reports 'unfinished' forever and the run never returns")
+        cl = C(None, None, gen)
+        ir.Engine(cl, "paths").run(ir.cx_to_ir(m.body))
+        # the Gillespie dead-state rule: zero total propensity ends the run
+        if "a0" in tu.all_fields(c.name):
+            recs = []
+
+            class D(cxa.CanonFacts):
+                def ret(self, s_, cfg):
+                    if ("a0 == 0", True) in cfg:
+                        recs.append((s_.src, (("done",), True) in cfg))
+            ir.Engine(D(None, None, gen), "paths").run(ir.cx_to_ir(m.body))
+            ctx.check(bool(recs) and all(okk for _, okk in recs), R, m.node, m.qual, "a0 == 0 => FlagAsComplete()",
+                      "a system in which nothing can happen any more completes",
+                      "with zero total propensity the simulation is not flagged complete")
+    ctx.floor(R, 6 * 2)
+
+
+def rule_type_ptr(ctx, tu):
+    """between a store to global_space_type and the allocation of the matching algorithm object, nothing may delete
+    through the type-selected pointer (the type no longer identifies the live object)"""
+    R = "C10.TYPE-PTR"
+    ptrs, bools = globals_info(tu)
+    deleters = set()
+    changed = True
+    while changed:
+        changed = False
+        for f in tu.all_fns():
+            if f.body is None or f.qual in deleters:
+                continue
+            for x in walk(f.body):
+                if x.get("kind") == "CXXDeleteExpr" or any(c.qual in deleters for c in tu.resolve_calls(f, x)):
+                    deleters.add(f.qual)
+                    changed = True
+                    break
+    n = 0
+    for f in exports(tu):
+        stores = [s_ for s_ in cxa.all_stores(f.body) if s_.base and s_.base[0] == "var" and s_.base[1] == "global_space_type"]
+        if not stores:
+            continue
+        bad = []
+
+        class C(ir.Client):
+            def atom(self, node, cfg):
+                for x in walk(node):
+                    for s_ in cxa.stores_of_node(x):
+                        if s_.base and s_.base[0] == "var":
+                            if s_.base[1] == "global_space_type":
+                                cfg = cfg | {"switched"}
+                            elif s_.base[1] in ptrs and strip(s_.rhs, casts=True).get("kind") == "CXXNewExpr":
+                                cfg = cfg - {"switched"}
+                    if x.get("kind") == "CXXDeleteExpr" and "switched" in cfg and self.record:
+                        bad.append(x)
+                    for callee in tu.resolve_calls(f, x):
+                        if callee.qual in deleters and "switched" in cfg and self.record:
+                            bad.append(x)
+                return cfg
+        ir.Engine(C(), "paths").run(ir.cx_to_ir(f.body))
+        n += 1
+        ctx.check(not bad, R, bad[0] if bad else stores[0].node, f.qual, "global_space_type = ... then " +
+                  (text(bad[0])[:60] if bad else "allocation"), "no release between switching the space type and allocating "
+                  "the object of that type", "an object is released through the type-selected pointer after "
+                  "global_space_type was switched: the pointer of the *new* kind is deleted (dangling or never allocated) "
+                  "and the live object of the old kind leaks")
+    ctx.floor(R, 2)
+
+
 def run(ctx):
     tu = ctx.cx
     eff = cxa.Effects(tu)
@@ -524,6 +618,8 @@ def run(ctx):
     rule_loops(ctx, tu, eff)
     rule_isolation(ctx, tu, eff)
     rule_reset(ctx, ctx.py)
+    rule_progress(ctx, tu, eff)
+    rule_type_ptr(ctx, tu)
     ctx.analysed["engine"] = tu.meta
     ctx.assume("completion after ceil(t_max/dt) steps and absence of hangs in general are value-level and not "
                "decided; the Python driver loop ends only when the engine reports completion")
